@@ -781,5 +781,12 @@ def c11(E, blt, opts, r):
             out.append(V_('c11-withdrawn', "election with withdrawn candidates deleted ends with status %s" % r3['status'], **arith_sig(E)))
     return out
 
+def final_by_name(E, blt, opts, r):
+    "not an oracle: exports winners and final tallies by candidate name (for paired runs)"
+    if r['status'] != 'ok': return []
+    w = sorted(c.name for c in E.elected)
+    t = sorted((c.name, str(c.vote)) for c in E.C if c.state != 'withdrawn')
+    return [dict(kind='final', detail=repr((w, t)), sig={})]
+
 # ------------------------------------------------------------------ C18: renderings (separate module)
 from oracles_render import *
